@@ -97,6 +97,10 @@ def gen_cases(ctx):
     return cases
 
 
+def b_ok(out):
+    return out[:1] == [0]
+
+
 def check_property_on_impl(ctx, c, out):
     """Independent of the model: the implementation's own output against the property's wording."""
     qs, base = c["qs"], c["base"]
@@ -239,6 +243,26 @@ def run(ctx):
                  "implementation": a[:400], "model": b[:400],
                  "harness_cmd": "echo '%s' | harness/target/release/rlharness fx" % line_new(e)})
         check_property_on_impl(ctx, c, a)
+    # the market RESTORED FROM ITS OWN SAVED DOCUMENT is the same market (harness op `newj`: to_json -> from_json after
+    # construction): bases other than the first quoted currency, every tree shape
+    th = ctx.tier == "thorough"
+    pick = [i for i, c in enumerate(cases) if c["expect"] == "ok" and b_ok(model[i])]
+    ctx.rng.shuffle(pick)
+    pick = pick[:(3000 if th else 250 * ctx.scale)]
+    impl_j = run_harness("fx", ["newj " + " ".join(str(x) for x in encs[i]) for i in pick])
+    for i, a in zip(pick, impl_j):
+        c, e, b = cases[i], encs[i], model[i]
+        ctx.evaluations += 1
+        ctx.count("reloaded from its saved document: base %s" % ("none" if c["base"] is None else
+                  "first quoted currency" if c["base"].lower() == c["qs"][0][0].lower() else "another currency"))
+        ctx.nontriv(("reloaded", tuple(e)))
+        if not same_new(a, b):
+            ctx.violation(
+                "the market %s restored from its own saved document (to_json, from_json) disagrees with the proved model "
+                "(class: 0 Ok, 1 Err, 2 abort): implementation %s, model %s" % (describe(c["qs"], c["base"]), a[:8], b[:8]),
+                {"case_kind": c["kind"], "reloaded": True, "quotes": [list(q) for q in c["qs"]], "base": c["base"], "encoded": e,
+                 "implementation": a[:400], "model": b[:400],
+                 "harness_cmd": "echo 'newj %s' | harness/target/release/rlharness fx" % " ".join(str(x) for x in e)})
     remark_stage(ctx, cases)
     for c, a in list(zip(cases, impl))[:4]:
         cls, names, vals = parse_new(a)
@@ -259,7 +283,7 @@ def replay(ctx, rp):
         ctx.cleanup()
         return 0 if a == b else 1
     e = rp["encoded"]
-    a = run_harness("fx", [line_new(e)])[0]
+    a = run_harness("fx", [("newj " + " ".join(str(x) for x in e)) if rp.get("reloaded") else line_new(e)])[0]
     b = coq_eval("Run.RunFX", "runFX", [[0] + list(e)], ctx.work)[0]
     print("replay %s base=%s: implementation %s model %s" % (rp.get("quotes"), rp.get("base"), a[:12], b[:12]))
     ok = same_new(a, b)
